@@ -32,10 +32,16 @@ var awkwardTables = [][]string{
 	{"/a/{x}", "/a/b", "/a/*{y}"},
 	{"/*{x}", "/*{x}/b", "/a/*{y}/b"},
 	{"/a*{x}/b/", "/a{x}/b"},
+	// shapes taken from seeded changes (DESIGN.md 13.6): every counter-example becomes permanent
+	{"{h}.b/{x}", "{h}.b/a/{y}"},                          // tsr below a host after an abandoned alternative
+	{"a.b/{x}/a", "{h}.b/{y}/b"},                          // path parameters of a failed host candidate
+	{"/{x}/b/a", "/{x}/{y}/ab/a", "/{x}/{y}/{x}/abc"},     // two nested backtracks below a captured parameter
+	{"a.{h}.b/", "{h}.{g}.ab/", "/"},                      // parameter counters across host backtracking
+	{"{h}.b/*{w}/a", "{h}.b/a/{y}/"},
 }
 
-var awkwardPaths = []string{"/ab/a/a", "/a", "/b/", "/abb/", "/abc/", "/a/a/a/a", "/a/a/a/ab", "/ab", "/a/b/b", "/a/b/", "/ab/b", "/ab/b/"}
-var awkwardHosts = []string{"aa.abb.abb", "a.b", "a.b.a", "a.b.b", "b.a.b"}
+var awkwardPaths = []string{"/a/b/ab/abc", "/a/b/a/", "/ab/a/a", "/a", "/b/", "/abb/", "/abc/", "/a/a/a/a", "/a/a/a/ab", "/ab", "/a/b/b", "/a/b/", "/ab/b", "/ab/b/"}
+var awkwardHosts = []string{"a.ab", "a.b.ab", "a.ab:8080", "aa.abb.abb", "a.b", "a.b.a", "a.b.b", "b.a.b"}
 
 type matchGen struct {
 	Pool   []string
@@ -121,8 +127,18 @@ func newMatchGen(rng *rand.Rand, nPathOnly, nHost, maxTab, pathLen, maxPaths int
 	for len(g.Pool) < nPathOnly {
 		g.Pool, _ = uniqueAppend(g.Pool, seen, genPattern(rng, false, 3))
 	}
-	for len(g.Pool) < nPathOnly+nHost {
-		g.Pool, _ = uniqueAppend(g.Pool, seen, genPattern(rng, true, 2))
+	// hostname patterns: a few hostnames (overlapping static / parameter labels) each above several paths,
+	// so that tables hold several routes under one host and hosts that backtrack into one another
+	hostHeads := []string{"a.b", "{h}.b", "a.{g}", "{h}.{g}", "a{h}.b", "{h}.a.b", "b", "{g}"}
+	rng.Shuffle(len(hostHeads), func(i, j int) { hostHeads[i], hostHeads[j] = hostHeads[j], hostHeads[i] })
+	for tries := 0; len(g.Pool) < nPathOnly+nHost && tries < 1000; tries++ {
+		h := hostHeads[rng.Intn(min(len(hostHeads), 4))]
+		p := genPattern(rng, false, 2)
+		if rng.Intn(4) == 0 {
+			g.Pool, _ = uniqueAppend(g.Pool, seen, genPattern(rng, true, 2))
+		} else {
+			g.Pool, _ = uniqueAppend(g.Pool, seen, h+p)
+		}
 	}
 	g.enum = len(g.Pool)
 	// awkward tables: appended to the pool (not part of the k-subset enumeration unless they fall in range)
@@ -213,6 +229,27 @@ func newMatchGen(rng *rand.Rand, nPathOnly, nHost, maxTab, pathLen, maxPaths int
 		g.Hosts = []string{"a.b"}
 	}
 	return g
+}
+
+// derivedHostsFirst keeps n hosts, preferring those that instantiate hostname patterns of the pool.
+func derivedHostsFirst(g *matchGen, n int) []string {
+	aw := map[string]bool{}
+	for _, h := range awkwardHosts {
+		aw[h] = true
+	}
+	var first, rest []string
+	for _, h := range g.Hosts {
+		if aw[h] {
+			rest = append(rest, h)
+		} else {
+			first = append(first, h)
+		}
+	}
+	out := append(first, rest...)
+	if len(out) > n {
+		out = out[:n]
+	}
+	return out
 }
 
 func (g *matchGen) tla(checkIrrelevant bool) string {
